@@ -598,7 +598,7 @@ CORPUS = [
     ['E "\\"abc"', "E '\\''", "Q %22abc", "Q a%22b%27"],                          # F16 (fixed)
     ["E f ( a , ( b , c ) )", "E a = b , c", "E x = { 1 , 2 }", "E f ( )", "E a [ ]", "E ( )"],
     ["E a . b ( c )", "E a :: b ( c )", "E - f ( x ) [ 1 ] ++", "E * p ++", "E & a -> b"],
-    ["G a b +", "G ? b", "G ( a", "G a ++ b", "G ( a ) b", "G 7 . A ( 2 )", "G 1.f . q"],   # accepted or rejected garbage
+    ["G a b +", "G ? b", "G ( a", "G a ++ b", "G ( a ) b", "G 7 . A ( 2 )", "G 1.f . q", "G a )", "G ]"],   # accepted or rejected garbage
     ["E f ( aaaaaaaaaaaaaaaaaaaaaaaaaaaaaaaaaaaaaaaa , b )",
      "E g ( aaaaaaaaaaaaaaaaaaaa , bbbbbbbbbbbbbbbbbbbb , cccccccccccccccccccc , dddddddddddddddddddd , e )"],   # newline-delimited calls
 ]
